@@ -1037,10 +1037,17 @@ def build_fn(fs, repo, effectful, table_keys, canary=False):
     for kind, arg, origin in fs.rewrites:
         if kind == 'unwrap_or_else':
             text = rw_unwrap_or_else(text, log)
-        elif kind == 'and_then':
-            text = rw_and_then(text, log)
-        elif kind == 'map':
-            text = rw_map(text, log)
+        elif kind in ('and_then', 'map'):
+            # the combinator the contract was written for, else its sibling (`and_then` <-> `map` is a one-token edit of the source,
+            # and both are rewritten by their std definitions), else nothing to rewrite
+            first, second = (rw_and_then, rw_map) if kind == 'and_then' else (rw_map, rw_and_then)
+            try:
+                text = first(text, log)
+            except AnchorLost:
+                try:
+                    text = second(text, log)
+                except AnchorLost:
+                    log.append('R4/R16 no `.and_then(|v| ..)` / `.map(|v| ..)` in this body: nothing to rewrite')
         elif kind == 'spawn_calls':
             text = rw_spawn_calls(text, log)
         elif kind == 'guard_to_if':
